@@ -18,13 +18,14 @@ FULL STATEMENT (what the property asks of the routing tables):
         s ∈ born tables mode top (effLeaf tables top path) (leaf root path) →
         conforming top (routePath tables mode top root path s) = true
 
-It is FALSE on today's tree — `C03_routing_full_false` gives four concrete
+It is FALSE on today's tree — `C03_routing_full_false` gives three concrete
 paths (they are the catalogued findings C03-inner-parser-argerr,
-C03-help-parser-exits, C03-type-import-path and C03-default-config-argerr; the
-first three were read off the model and then reproduced on the real code, see
-known_findings.d/C03.json).  `C03_routing` is the partial theorem: every
-designed failure on every call path of any depth either conforms or carries the
-tag of one of these four origins (`Tag`).
+C03-help-parser-exits and C03-default-config-argerr; the first two were read
+off the model and then reproduced on the real code, see
+known_findings.d/C03.json; a fourth origin, the `Type[..]` import, was repaired
+in /repo by c7ee31e and is now an ordinary wrapped region).  `C03_routing` is
+the partial theorem: every designed failure on every call path of any depth
+either conforms or carries the tag of one of these three origins (`Tag`).
 -/
 import Jap.Core.ExcFlow
 import Jap.Lemmas.ExcFlow
@@ -104,7 +105,8 @@ theorem C03_subclass_facts :
     sub tables .SystemExit .Exception = false ∧ sub tables .ArgumentError .Exception = true := by
   decide
 
-/-- the subclass, Callable, Annotated, Enum and registered-type branches turn what they are designed to raise into ValueError -/
+/-- the subclass, Callable, Annotated, Enum, registered-type, Type[..] (F03t) and float (F03o) branches turn what they are
+designed to raise into ValueError -/
 theorem C03_adapter_branches :
     (∀ mode ∈ Mode.all, ∀ c ∈ [Exc.ImportError, .ModuleNotFoundError, .AttributeError, .AssertionError, .ArgumentError],
       caught tables mode (tables.handler .subclassBranch) c = true) ∧
@@ -114,6 +116,11 @@ theorem C03_adapter_branches :
     (tables.handler .callableBranch).act = .raises .ValueError ∧
     (∀ mode ∈ Mode.all, ∀ c ∈ tables.deserExc, caught tables mode (tables.handler .registered) c = true) ∧
     (tables.handler .registered).act = .raises .ValueError ∧
+    (∀ mode ∈ Mode.all, ∀ c ∈ [Exc.ImportError, .ModuleNotFoundError, .AttributeError],
+      caught tables mode (tables.handler .typeImport) c = true) ∧
+    (tables.handler .typeImport).act = .raises .ValueError ∧
+    (∀ mode ∈ Mode.all, caught tables mode (tables.handler .floatConv) .OverflowError = true) ∧
+    (tables.handler .floatConv).act = .raises .ValueError ∧
     tables.innerExitOnError = false := by
   decide
 
@@ -155,7 +162,7 @@ from a root region of the method to a region, and every failure that region is
 designed to raise: what the caller of the method sees is `ArgumentError`
 (exit_on_error false) or exit status 2 (true) — or status 0 / nothing for help,
 print_config and absorbed failures — unless the signal carries the tag of one
-of the four catalogued origins. -/
+of the three catalogued origins. -/
 theorem C03_routing (top : Bool) (mode : Mode) (m : Method) (root : Region) (hroot : root ∈ roots m)
     (path : List Region) (hpath : chain root path = true)
     (s : Sig) (hs : s ∈ born tables mode top (effLeaf tables top path) (leaf root path)) :
@@ -191,12 +198,6 @@ def witnessHelp : Outcome :=
   routePath tables .yaml false (.body .parseArgs) [.knownArgs, .helpClassPath, .helpBody, .leftover]
     (errorSig tables false (effLeaf tables false [.knownArgs, .helpClassPath, .helpBody, .leftover]))
 
-/-- a `Type[...]` argument with a non-importable path: `import_object` sits outside every handler
-(finding C03-type-import-path) -/
-def witnessType : Outcome :=
-  routePath tables .yaml false (.body .parseArgs) [.knownArgs, .typehintAction, .checkType, .adapt, .typeImport]
-    (.exc .ModuleNotFoundError .typeImport)
-
 /-- a default config file whose sub-command value is not hashable, on a parser that exits: get_defaults
 turns the TypeError of _parse_common into ArgumentError itself (finding C03-default-config-argerr) -/
 def witnessDefault : Outcome :=
@@ -204,8 +205,7 @@ def witnessDefault : Outcome :=
     (.exc .TypeError .clean)
 
 def anyHoleOpen : Bool :=
-  !conforming true witnessInner || !conforming false witnessHelp || !conforming false witnessType ||
-  !conforming true witnessDefault
+  !conforming true witnessInner || !conforming false witnessHelp || !conforming true witnessDefault
 
 /-- the statement without the tag escape clause -/
 def RoutingFull : Prop :=
@@ -222,21 +222,18 @@ theorem C03_routing_full_false_if_open (h : anyHoleOpen = true) : ¬ RoutingFull
   have h2 := full false .yaml .parseArgs (.body .parseArgs) (by decide)
     [.knownArgs, .helpClassPath, .helpBody, .leftover] (by decide)
     (errorSig tables false (effLeaf tables false [.knownArgs, .helpClassPath, .helpBody, .leftover])) (by decide)
-  have h3 := full false .yaml .parseArgs (.body .parseArgs) (by decide)
-    [.knownArgs, .typehintAction, .checkType, .adapt, .typeImport] (by decide)
-    (.exc .ModuleNotFoundError .typeImport) (by decide)
   have h4 := full true .yaml .parseArgs (.body .parseArgs) (by decide)
     [.defaultsEnv, .getDefaults, .defCommon, .subcommands] (by decide) (.exc .TypeError .clean) (by decide)
-  simp only [anyHoleOpen, witnessInner, witnessHelp, witnessType, witnessDefault, h1, h2, h3, h4] at h
+  simp only [anyHoleOpen, witnessInner, witnessHelp, witnessDefault, h1, h2, h4] at h
   exact absurd h (by decide)
 
-/-- today at least one of the four is open (all four are: the `example`s below); when the last one
+/-- today at least one of the three is open (all three are: the `example`s below); when the last one
 is repaired in /repo this theorem fails and `RoutingFull` becomes provable -/
 theorem C03_routing_full_false : ¬ RoutingFull := C03_routing_full_false_if_open (by decide)
 
 /-! ## the pipeline model: all inputs -/
 
-/-- C03_model_total (partial form, the four tagged origins excluded).  Whatever
+/-- C03_model_total (partial form, the three tagged origins excluded).  Whatever
 the input makes the stages do — an arbitrary finite sequence of events, each a
 call path of any depth below the method's root region together with either
 "returns normally" or a failure the region at the end of the path is designed to
@@ -294,6 +291,11 @@ example : routePath tables .json true (.body .parseString) [.lcpm, .lcpmLoad, .l
 -- a non-importable class_path for a subclass-typed argument given on the command line
 example : routePath tables .yaml false (.body .parseArgs) [.knownArgs, .typehintAction, .checkType, .adapt, .subclass]
     (.exc .ModuleNotFoundError .clean) = .argErr := by decide
+-- F03t: a Type[..] argument with a non-importable path; F03o: an int too large for a float argument
+example : routePath tables .yaml false (.body .parseArgs) [.knownArgs, .typehintAction, .checkType, .adapt, .typeImport]
+    (.exc .ModuleNotFoundError .clean) = .argErr := by decide
+example : routePath tables .yaml true (.body .parseObject) [.applyActions, .checkValueKey, .checkType, .adapt, .floatConv]
+    (.exc .OverflowError .clean) = .exit 2 := by decide
 -- a failure inside a sub-command's own parse_args, three levels deep
 example : routePath tables .yaml true (.body .parseArgs)
     [.knownArgs, .subcmdAction, .body .parseArgs, .knownArgs, .subcmdAction, .body .parseArgs, .common, .validate, .required]
@@ -304,7 +306,6 @@ example : ∀ top, routePath tables .yaml top (.body .parseArgs) [.common, .prin
 -- the three witnesses, individually
 example : witnessInner = .escapes .ArgumentError := by decide
 example : witnessHelp = .exit 2 := by decide
-example : witnessType = .escapes .ModuleNotFoundError := by decide
 example : witnessDefault = .escapes .ArgumentError := by decide
 -- a failure that no region is designed to raise is outside the theorem (and escapes): the open finding about sub-command sections
 example : routePath tables .yaml false (.body .parseString) [.common, .subcommands] (.exc .AttributeError .clean) = .escapes .AttributeError := by decide
@@ -327,6 +328,10 @@ example : routePath { tables with loaderExc := fun _ => [] } .json false (.body 
     [.lcpm, .lcpmLoad, .loadDoc] (.exc .JSONDecodeError .clean) = .escapes .JSONDecodeError := by decide
 example : routePath { tables with error := { tables.error with exitStatus := some 1 } } .yaml true (.body .parseObject)
     [.common, .validate] (.exc .NSKeyError .clean) = .exit 1 := by decide
+example : routePath (edit .typeImport ⟨[], .same⟩) .yaml false (.body .parseArgs)
+    [.knownArgs, .typehintAction, .checkType, .adapt, .typeImport] (.exc .ModuleNotFoundError .clean) = .escapes .ModuleNotFoundError := by decide
+example : routePath (edit .floatConv ⟨[], .same⟩) .yaml false (.body .parseArgs)
+    [.knownArgs, .typehintAction, .checkType, .adapt, .floatConv] (.exc .OverflowError .clean) = .escapes .OverflowError := by decide
 example : routePath (edit .pathOwn ⟨[], .same⟩) .yaml false (.body .parsePath) [.pathCtor] (.exc .PathError .clean)
     = .escapes .PathError := by decide
 
